@@ -182,6 +182,40 @@ def chk_entry(root, i):
     return viols
 
 
+SIB_ROOT = {"k": 0x51b1105 * 2**200 + 0xabcdef, "chain": "9d" * 32}
+
+
+class Siblings:
+    """many DIFFERENT children requested from ONE parent object, then an early one again: the answer must be the reference child
+    of that index whatever the node remembers about its children. canon = the history."""
+
+    def ops(self, hist):
+        return [0, 1, H, H + 1]
+
+    def run(self, hist):
+        root = hdscen.impl_root(SIB_ROOT)
+        rr = hdscen.ref_root(SIB_ROOT)
+        viols, label = [], "init"
+        st, node = ("ok", None)
+        for i in hist:
+            st, node = attempt(root.ckd, i)
+        if hist:
+            i = hist[-1]
+            exp = hdscen.canon_ref_node(hd.derive(rr, [i]))
+            cls = "hardened" if i >= H else "normal"
+            if st != "ok":
+                viols.append(V("%s:siblings:%s:refused" % (P, cls), "after %d other children of the same parent object, ckd(%d) raised %s" % (len(hist) - 1, i, node)))
+            elif hdscen.canon_impl_node(node) != exp:
+                viols.append(V("%s:siblings:%s:wrong-node" % (P, cls), "after %d other children of the same parent object, ckd(%d) returns another node" % (len(hist) - 1, i),
+                               hdscen.canon_impl_node(node), exp))
+            else:
+                sst, strs = attempt(node_strings, node)
+                if sst != "ok" or strs != ref_strings(hd.derive(rr, [i])):
+                    viols.append(V("%s:siblings:%s:wrong-strings" % (P, cls), "after %d other children, the keys printed for child %d are wrong" % (len(hist) - 1, i)))
+            label = "violation" if viols else "sibling-ok"
+        return {"canon": hist, "viols": viols, "label": label}
+
+
 def _ev_judge(i):
     """single steps on MANY distinct parents (normal and hardened alternate)"""
     root = {"k": 0xD15C0 + 977 * i, "chain": "%064x" % (0x5eed + i)}
@@ -190,6 +224,12 @@ def _ev_judge(i):
 
 
 def execute(case):
+    if "hist" in case and case.get("layer", "").startswith("sibling-revisits"):
+        from ..core import isolated
+        r = isolated(Siblings().run, case["hist"])
+        for v in r["viols"]:
+            v["case"] = case
+        return R(r["label"], viols=r["viols"])
     if "hist" in case and case.get("layer") == "distinct-parent-revisits":
         from ..core import isolated
         from ..bfs import PureCalls
@@ -292,6 +332,9 @@ def run(ctx):
     ev_sizes = (1, 2, 3, 4, 5, 8, 9, 16, 17, 32, 33, 64, 65, 128, 129) + ((256, 257) if ctx.thorough else ())
     eviction_probe(ctx, "distinct-parent-revisits", PureCalls(10**6, _ev_judge, P), lambda i: i, sizes=ev_sizes)                 # normal children
     eviction_probe(ctx, "distinct-parent-revisits", PureCalls(10**6, _ev_judge, P), lambda i: 10**5 + i, sizes=ev_sizes[:13])    # hardened children
+    # many children of ONE parent object, then an early index again (a per-node ring of remembered children)
+    eviction_probe(ctx, "sibling-revisits", Siblings(), lambda i: i, sizes=ev_sizes)
+    eviction_probe(ctx, "sibling-revisits-hardened", Siblings(), lambda i: H + i if i % 2 else i, sizes=ev_sizes[:13])
     ctx.extra["states"] = ctx.extra.get("states", 0)
     # (b) derivation-tree BFS
     roots = [{"k": hd.master(bytes.fromhex("000102030405060708090a0b0c0d0e0f")).k,
